@@ -37,14 +37,25 @@ def toSigned (w u : Nat) : Int := if u < 2 ^ (w - 1) then (u : Int) else (u : In
 def fromSigned (w : Nat) (n : Int) : Nat := (n % ((2 ^ w : Nat) : Int)).toNat
 
 /-- `int2ba(n, length = w, signed = True)` accepts exactly this range (else `OverflowError`) -/
-def signedInRange (w : Nat) (n : Int) : Bool :=
-  decide (-((2 ^ (w - 1) : Nat) : Int) ≤ n) && decide (n < ((2 ^ (w - 1) : Nat) : Int))
+def signedInRange (w : Nat) (n : Int) : Prop :=
+  -((2 ^ (w - 1) : Nat) : Int) ≤ n ∧ n < ((2 ^ (w - 1) : Nat) : Int)
+
+instance (w : Nat) (n : Int) : Decidable (signedInRange w n) := by unfold signedInRange; exact inferInstance
 
 /-- every octet is `< 256` (what Python's `bytes` guarantees) -/
 def isBytes (d : Bytes) : Bool := d.all (fun b => decide (b < 256))
 
 /-- all bits zero: `ba2int(x) == 0` -/
 def allZero (bs : Bits) : Bool := bs.all (fun b => !b)
+
+/-- an optional attribute is present and satisfies `P` -/
+def optIs {α : Type} (o : Option α) (P : α → Prop) : Prop :=
+  match o with
+  | some a => P a
+  | none => False
+
+instance {α : Type} (o : Option α) (P : α → Prop) [DecidablePred P] : Decidable (optIs o P) := by
+  unfold optIs; cases o <;> exact inferInstance
 
 /-! ### text encodings for the line protocol -/
 
